@@ -5,7 +5,7 @@ META = {
   technique="contract harnesses (assume Inv+pre / call real method / assert post over the stream view) discharged by Kani/CBMC for every word width and endianness",
   text="Proof, per operation and for all inputs and all invariant-satisfying pre-states (hence all histories, by induction over the history): "
        "new, write_bits, flush, into_inner, drop of BufBitWriter meet the stream-view contract of DESIGN 2.1 (canonical image compared bit by bit at a symbolic index) "
-       "for BE/LE x u8..u128; write_unary is proved for every value by Verus on the extracted text (zero-word loop by invariant, one unit per word type); its Kani obligation (window of K words) stays as a bounded cross-check with counterexamples.",
+       "for BE/LE x u8..u128; write_bits, flush_be/flush_le and write_unary (every value, zero-word loop by invariant) are additionally proved by Verus on the extracted text, one unit per word type; the Kani obligations provide counterexamples (write_unary's is window-bounded).",
   note="Trusted: rustc/Kani/CBMC; ghost backend Rec; layout predicates transcribed from the statement. Backend kinds are covered through the backends' own contracts (C13, C11) plus parametricity. Verus units instantiate WW::Word per word type (listed substitutions) and take to_be/to_le by axioms discharged by Kani std_spec obligations.",
   design="4/C01"),
 }
@@ -16,7 +16,7 @@ META.update({
   category="proof",
   text="Proof per operation, for every Inv_R state (every buffer fill level incl. more than one word buffered), every symbolic stream (strict or zero-extended) and every n: "
        "read_bits, peek_bits (+repeatability), skip_bits_after_peek, clone, new of BufBitReader (BE/LE x u8..u64) and of the unbuffered BitReader return exactly the canonical-layout bits, advance by exactly n and re-establish the invariant; "
-       "hence every history, by induction. read_unary/skip_bits word loops are proved unbounded by Verus on the extracted text (BufBitReader per word type, unbuffered BitReader), with the Kani window-bounded obligations kept as cross-checks.",
+       "hence every history, by induction. read_bits, peek_bits, refill, skip_bits_after_peek and the read_unary/skip_bits word loops are additionally proved (unbounded) by Verus on the extracted text (BufBitReader per word type, unbuffered BitReader read_unary), with the Kani obligations kept as cross-checks providing counterexamples.",
   note="Trusted: Kani/CBMC, ghost backend Oracle, mk_buffer (the invariant's constructor). Zero extension is the contract of MemWordReader (bounded array length). Verus units: word instantiation, count-zeros/byte-order axioms discharged by Kani std_spec obligations; streams assumed shorter than 2^64 bits.",
   design="4/C02"),
  "C07": dict(
